@@ -434,6 +434,16 @@ func longNotFloat(v int64) bool {
 	return int64(f) != v
 }
 
+// yearUnparseable: Marshal writes a date with time.RFC3339Nano in the zone the
+// value happens to carry (its own on the replica that set it, the process zone
+// on every replica that decoded it), and time.Parse only reads years
+// 0000..9999. The predicate is zone independent: the instant shows a year
+// outside that range in some zone (offsets reach at most +-14h).
+func yearUnparseable(t gotime.Time) bool {
+	u := t.UTC()
+	return u.Add(-15*gotime.Hour).Year() < 0 || u.Add(15*gotime.Hour).Year() > 9999
+}
+
 func (sh *shape) str(s string) {
 	if isHostile(s) {
 		sh.hostile = true
@@ -517,7 +527,7 @@ func (sh *shape) walk(v interface{}, depth int, inArray, root bool) {
 		}
 	case gotime.Time:
 		sh.kinds["date"] = true
-		if y := x.Year(); y < 0 || y > 9999 {
+		if yearUnparseable(x) {
 			sh.excl["N5-year"] = true
 		}
 		if x.Nanosecond()%1e6 != 0 {
